@@ -768,6 +768,76 @@ def world_dispatch(toks):
         i += 1
     return rows, tfs
 
+ACCESS = [
+    (r"^< Self as StorageCanResolve < K (> >|>>) :: (?P<m>\w+) \( self , entity \)$", "delegate"),
+    (r"^self \. resolve \( entity \) \. map \( \| index \| \$ borrow \{ index , source : self \} \)$", "borrowAtResolved"),
+    (r"^self \. resolve \( entity \) \. map \( \| index \| unsafe \{ E :: new \( index , self \. entities \. slice \( self \. len \) \. get_unchecked \( index \) , "
+     r"# \( self \. d ~ I \. get_mut \( \) \. slice_mut \( self \. len \) \. get_unchecked_mut \( index \) , \) \* \) \} \)$", "viewAtResolved"),
+    (r"^(debug_checked_assume ! \( self \. len <= MAX_DATA_CAPACITY as usize \) ; )?S :: new \( self \. entities \. slice \( self \. len \) , "
+     r"# \( self \. d ~ I \. get_mut \( \) \. slice_mut \( self \. len \) , \) \* \)$", "allSlicesToLen"),
+    (r"^(debug_checked_assume ! \( self \. len <= MAX_DATA_CAPACITY as usize \) ; )?self \. entities \. slice \( self \. len \)$", "entitiesToLen"),
+    (r"^(debug_checked_assume ! \( self \. len <= MAX_DATA_CAPACITY as usize \) ; )?self \. d ~ I \. get_mut \( \) \. slice \( self \. len \)$", "columnToLen false false"),
+    (r"^(debug_checked_assume ! \( self \. len <= MAX_DATA_CAPACITY as usize \) ; )?self \. d ~ I \. get_mut \( \) \. slice_mut \( self \. len \)$", "columnToLen true false"),
+    (r"^Ref :: map \( self \. d ~ I \. borrow \( \) , \| slice \| unsafe \{ (debug_checked_assume ! \( self \. len <= MAX_DATA_CAPACITY as usize \) ; )?slice \. slice \( self \. len \) \} \)$", "columnToLen false true"),
+    (r"^RefMut :: map \( self \. d ~ I \. borrow_mut \( \) , \| slice \| unsafe \{ (debug_checked_assume ! \( self \. len <= MAX_DATA_CAPACITY as usize \) ; )?slice \. slice_mut \( self \. len \) \} \)$", "columnToLen true true"),
+]
+
+
+def accessor_rows(sto):
+    rows = []
+    for fn, tilde in (("destroy", False), ("resolve", False), ("to_direct", False), ("begin_borrow", False), ("get_view_mut", False),
+                      ("get_all_slices_mut", False), ("get_slice_entities", False),
+                      ("get_slice_", True), ("get_slice_mut_", True), ("borrow_slice_", True), ("borrow_slice_mut_", True)):
+        try:
+            # `fn get_slice_~I` tokenises as get_slice_ ~ I
+            i = 0
+            found = None
+            while i < len(sto) - 3:
+                if sto[i][1] == "fn" and sto[i + 1][1] == fn and ((sto[i + 2][1] == "~" and sto[i + 3][1] == "I") == tilde):
+                    found = i
+                    break
+                i += 1
+            if found is None:
+                raise ExtractError(f"fn {fn} not found")
+            j = found
+            while sto[j][1] != "(":
+                j = block_end(sto, j) if sto[j][1] in OPEN else j + 1
+                if sto[j - 1][1] == ">" and False:
+                    pass
+            # skip generics that may contain parens: find the parameter list = the paren group directly before `->` or `{`/where
+            k = found + 2
+            depth = 0
+            while True:
+                t = sto[k][1]
+                if t == "<":
+                    depth += 1
+                elif t == ">":
+                    depth -= 1
+                elif t == ">>":
+                    depth -= 2
+                elif t == "(" and depth <= 0:
+                    break
+                k += 1
+            k = block_end(sto, k)
+            while sto[k][1] != "{":
+                k += 1
+            e = block_end(sto, k)
+            body = [t for (_, t) in sto[k + 1:e - 1]]
+            # strip one enclosing `unsafe { … }`
+            if body[:2] == ["unsafe", "{"] and _end_of(body, 1) == len(body):
+                body = body[2:-1]
+            text = " ".join(body)
+            shape = "unknown"
+            for pat, sh in ACCESS:
+                m = re.match(pat, text)
+                if m:
+                    shape = sh if sh != "delegate" else 'delegate "' + m.group("m") + '"'
+                    break
+            rows.append((fn + ("~I" if tilde else ""), shape, text))
+        except (ExtractError, IndexError) as ex:
+            rows.append((fn, "unknown", f"NOT RECOGNISED: {ex}"))
+    return rows
+
 SLOT = [
     DBG,
     (r"^self \. index = SlotIndex :: new_data \( p0 \) ;$", "indexNewData", None),
@@ -971,6 +1041,15 @@ def extract_steps():
             lines.append(f"  ⟨.{v}, {mm}, .{kind}⟩{',' if k + 1 < len(rows) else ''}   -- {src}")
         lines.append("]")
         parts.append("\n".join(lines))
+    # --- accessor surface of StorageN
+    arows = accessor_rows(sto)
+    lines = ["/-- src/archetype/storage.rs: bodies of the public wrappers and of the view / borrow / slice accessors of `StorageN`, classified -/",
+             "def accessors : List (String × AccShape) := ["]
+    for k, (nm, shape, src) in enumerate(arows):
+        sh = ("(." + shape + ")") if " " in shape else ("." + shape)
+        lines.append(f'  ("{nm}", {sh}){"," if k + 1 < len(arows) else ""}   -- {src.replace("-/", "- /")[:150]}')
+    lines.append("]")
+    parts.append("\n".join(lines))
     # --- world-level key dispatch (macros/src/generate/world.rs)
     try:
         wtoks = tokenize(read("macros/src/generate/world.rs"))
@@ -1059,7 +1138,7 @@ def extract_steps():
     head = ("/- GENERATED by tools/extract.py (tools/extract_steps.py) from /repo/src/archetype/{storage.rs, slot.rs} on every run.\n"
             "   Do not edit.  The statements of the mutating primitives, classified and listed in source order; meaning:\n"
             "   Gecs/Model/Steps.lean; tie theorems: Gecs/Lemmas/GenSteps.lean. -/\n"
-            "import Gecs.Model.Steps\nimport Gecs.Model.ResolveSteps\nimport Gecs.Model.CloneSteps\nimport Gecs.Model.PushSteps\nimport Gecs.Model.KeySteps\nimport Gecs.Model.InitSteps\nimport Gecs.Model.IterSteps\nimport Gecs.Model.LoopSteps\nimport Gecs.Model.BindSteps\nimport Gecs.Model.FindSteps\nimport Gecs.Model.MemSteps\nimport Gecs.Model.FreeListSteps\nimport Gecs.Model.DispatchSteps\n\nnamespace Gecs.Gen\n\n")
+            "import Gecs.Model.Steps\nimport Gecs.Model.ResolveSteps\nimport Gecs.Model.CloneSteps\nimport Gecs.Model.PushSteps\nimport Gecs.Model.KeySteps\nimport Gecs.Model.InitSteps\nimport Gecs.Model.IterSteps\nimport Gecs.Model.LoopSteps\nimport Gecs.Model.BindSteps\nimport Gecs.Model.FindSteps\nimport Gecs.Model.MemSteps\nimport Gecs.Model.FreeListSteps\nimport Gecs.Model.DispatchSteps\nimport Gecs.Model.AccessSteps\n\nnamespace Gecs.Gen\n\n")
     return head + "\n\n".join(parts) + "\n\nend Gecs.Gen\n"
 
 
